@@ -187,7 +187,19 @@ def run(rep, tier):
             cc = dict(c)
             cc.update(m)
             ball_cfgs.append(cc)
-    plan.append(('configuration ball, canonical schedule', ball_cfgs, 0))
+    # residual type x quadrature type on the node-parallel bases (the last-node residual is a different code path of the
+    # node-parallel sweepers, and it differs from the full one exactly on rules without the right end point)
+    seen_b = {common.canon(c) for c in ball_cfgs}
+    for name in ('nodes', 'nodes_ml'):
+        for rt in DIMS_NODES['residual_type']:
+            for q in DIMS_NODES['quad']:
+                c = fix(dict(mh.default_cfg(**BASES[name]), residual_type=rt, quad=q))
+                if c is not None:
+                    cc = dict(c, **MODES[0])
+                    if common.canon(cc) not in seen_b:
+                        seen_b.add(common.canon(cc))
+                        ball_cfgs.append(cc)
+    plan.append(('configuration ball (+ residual type x quadrature type on the node-parallel bases), canonical schedule', ball_cfgs, 0))
     # (2) restarts / adaptivity: every rejection script with <= 1 (2) rejections, both restart modes
     ad = []
     for ff in (False, True):
